@@ -37,8 +37,8 @@ CHECKS = {
    "§3 C07"),
  "C05": ("exploration", "vcheck",
    "exhaustive enumeration of call objects (10 method templates x 8 flag sets x explicit false x 0..2 unknown members x every member permutation) + proptest lanes for re-spelled texts (escapes in member names / values, white space), encodings through serde_json and through zlink's own serializer, derived error enums x member orders x {absent, null, {}}, Reply<T>, unit-output proxy methods; oracles: reference decode of the method type alone (differential), hand-written expected encodings, round trip, permutation invariance",
-   "Every permutation of every envelope in the grammar is decoded as Call<M> and compared with the decode of M from the same object without the flags (flags as written, hidden from M, other members passed through); encodings are compared with hand-written expectations via serde_json and via the send path; unknown members also get generated names (1..60 bytes of ASCII and 2-4-byte characters, raw or \\u-escaped); every value of 4 derived error enums and the standard service errors round-trips from every member order and, when field-less, from absent / null / {} parameters (also through receive_reply); unit-output proxy methods accept all three spellings.",
-   "Trusted: serde's derive for user-defined method types as the reference for what the method type accepts; hand-written expected encodings next to each generated value. Error-enum shapes are a compiled-in set of 4 enums (generated corpora of derives are exercised by C12/C16).",
+   "Every permutation of every envelope in the grammar is decoded as Call<M> and compared with the decode of M from the same object without the flags (flags as written, hidden from M, other members passed through); encodings are compared with hand-written expectations via serde_json and via the send path; unknown members also get generated names (1..60 bytes of ASCII and 2-4-byte characters, raw or \\u-escaped); every value of 4 derived error enums and the standard service errors round-trips from every member order and, when field-less, from absent / null / {} parameters (also through receive_reply); every variant of every enum of a generated corpus (unit / struct variants, renamed and raw-identifier fields, options, borrowed fields, lists, maps, nested structs, interface names with dashes and digits) encodes - through serde_json and through send_error - to the document its declaration denotes and decodes from 4..8 spellings to the value it was written from, also through receive_reply; unit-output proxy methods accept all three spellings.",
+   "Trusted: serde's derive for user-defined method types as the reference for what the method type accepts; hand-written expected encodings next to each generated value. Error-enum shapes: 4 compiled-in enums plus a generated corpus (40 enums quick, 400 thorough) compiled with the ReplyError derive, whose expected wire names / parameter names / values come from the generator's own table.",
    "§3 C05"),
  "C08": ("exploration", "vcheck",
    "model-based property testing of server schedules (proptest, shrinking; thorough: libFuzzer target srv_sim decoding the same raw scenario values): deterministic simulation of Server::run (scripted listener / sockets / service, hand-rolled executor, one Poll = run to quiescence) with generated connection scripts and global event orders; exhaustive enumeration of all interleavings of chunk deliveries for 2 connections x 4 chunks and 3 connections x 2 chunks; oracle = per-connection sequential reference model + service-log monitor",
@@ -146,6 +146,9 @@ def main():
             "add_only": True,
         },
         "engines": [
+            {"name": "corpus05", "path": "harness/corp05",
+             "serves_properties": ["C05"],
+             "kind_free_text": "generated program corpus of ReplyError derives: generator and judge in vcheck (c05gen.rs), runner crate harness/corp05 built with cargo against /repo; one lane of the C05 check (the other lanes run in vcheck itself)"},
             {"name": "corpus12", "path": "harness/corp12",
              "serves_properties": ["C12"],
              "kind_free_text": "generated program corpus: vcheck's C12 generator writes proxy traits + a reporting runner into harness/corp12/gen-out, builds the crate with cargo (release profile, opt-level 0, shared target dir) against /repo and runs it; judging happens in vcheck"},
